@@ -69,6 +69,7 @@ pub fn generate(tier: Tier, rng: &mut Rng, sink: &mut dyn FnMut(Case)) {
     gen_layered(&mut g, tier);
     gen_wide(&mut g);
     gen_bigconf(&mut g, tier);
+    gen_manytypes(&mut g, tier);
     gen_timed(&mut g, tier);
     gen_malformed(&mut g, tier);
     gen_pair(&mut g, tier);
@@ -706,6 +707,84 @@ fn gen_bigconf(g: &mut Gen, tier: Tier) {
 // timed: path-rich layered block beside a disconnected chain (and variants), built under a
 // wall-clock budget: a path search that enumerates paths instead of nodes does not return
 // ---------------------------------------------------------------------------------------------
+
+/// manytypes: more distinct data types in one graph than any machine word has bits (65..200), and
+/// single functions declaring more types than a small inline vector holds.
+fn gen_manytypes(g: &mut Gen, tier: Tier) {
+    let fo = |fid: u64, rd: Vec<usize>, wr: Vec<usize>| Op::F { fid, rd, wr };
+    // every function writes its own type: no conflicts at all
+    for n in [66usize, 72, 130] {
+        let ops: Vec<Op> = (0..n).map(|i| fo(fixed_fid(i), vec![], vec![i])).collect();
+        g.emit_b("manytypes-own", ops, Vec::new());
+    }
+    // one function writes type 0, the others read it and write their own type
+    for n in [70usize, 100] {
+        let mut ops = vec![fo(fixed_fid(0), vec![], vec![0])];
+        for i in 1..n {
+            ops.push(fo(fixed_fid(i), vec![0], vec![i]));
+        }
+        ops.push(Op::L(3, 5));
+        ops.push(Op::C(7, 2));
+        g.emit_b("manytypes-init", ops, Vec::new());
+    }
+    // pairs (i, i + 64 k) share nothing, pairs (i, i + 1) share a written type
+    {
+        let n = 80usize;
+        let mut ops = Vec::new();
+        for i in 0..n {
+            ops.push(fo(fixed_fid(i), vec![], vec![i, i + 100]));
+        }
+        for i in (0..n - 1).step_by(7) {
+            ops[i + 1] = fo(fixed_fid(i + 1), vec![i], vec![i + 1, i + 101]);
+        }
+        g.emit_b("manytypes-alias", ops, Vec::new());
+    }
+    // a function declaring many types itself
+    {
+        let mut ops = vec![fo(fixed_fid(0), (0..12).collect(), (12..30).collect())];
+        for i in 1..40usize {
+            ops.push(fo(fixed_fid(i), vec![i % 30], vec![30 + i]));
+        }
+        g.emit_b("manytypes-fat", ops, Vec::new());
+    }
+    let count = match tier {
+        Tier::Quick => 12,
+        Tier::Thorough => 150,
+    };
+    for _ in 0..count {
+        let n = 30 + g.rng.below(50);
+        let universe = 66 + g.rng.below(135);
+        let mut ops = Vec::new();
+        for i in 0..n {
+            let k = 1 + g.rng.below(3);
+            let mut rd = Vec::new();
+            let mut wr = Vec::new();
+            for _ in 0..k {
+                // a few hot types so that conflicts exist, the rest spread over the universe
+                let t = if g.rng.chance(1, 3) { g.rng.below(4) } else { g.rng.below(universe) };
+                if rd.contains(&t) || wr.contains(&t) {
+                    continue;
+                }
+                if g.rng.chance(1, 2) {
+                    wr.push(t);
+                } else {
+                    rd.push(t);
+                }
+            }
+            ops.push(fo(fixed_fid(i), rd, wr));
+        }
+        for _ in 0..g.rng.below(n) {
+            let a = g.rng.below(n);
+            let b = g.rng.below(n);
+            if a < b {
+                ops.push(Op::L(a, b));
+            } else if b < a && g.rng.chance(1, 3) {
+                ops.push(Op::C(a, b));
+            }
+        }
+        g.emit_b("manytypes-rand", ops, Vec::new());
+    }
+}
 
 fn gen_timed(g: &mut Gen, tier: Tier) {
     let shapes: &[(usize, usize)] = match tier {
